@@ -200,7 +200,7 @@ def run(ctx):
     k = 4 if ctx.quick else 5
     kc = 4 if ctx.quick else 6
     pairs = list(itertools.combinations(POOL, 2))
-    chosen = [pairs[ctx.seed % len(pairs)]] if ctx.quick else pairs
+    chosen = ([pairs[ctx.seed % len(pairs)], ("\ufeff", "\u00a0")] if ctx.quick else pairs)
     ctx.rule = (f"E-enum: every string over the 14-symbol critical alphabet with |s|<={k} on all paths (codec str+bytes; "
                 f"property SUMMARY/DESCRIPTION/X-TEXT via Event.add->to_ical->from_ical; CATEGORIES item in shapes "
                 f"{SHAPES}); codec and SUMMARY additionally up to |s|<={kc}; plus core-8 symbols joined by "
